@@ -62,3 +62,41 @@ Theorem C04_spec_executable : forall ds m f r x, (forall tid, udepth_le ds f tid
   (outlives_b (S f) ds m r x = true <-> outlives ds m r x).
 Proof. exact outlives_b_exact. Qed.
 Print Assumptions C04_spec_executable.
+
+(* ---------- written lifetimes -> HIR lifetimes (core/src/hir/elision.rs, Lifetimes/Elision.v) ---------- *)
+From DV Require Import Lifetimes.Elision Lifetimes.ElisionProofs.
+
+(* the state machine finds a source for elided output lifetimes exactly when Rust's rule names one: `&self`, or a
+   single lifetime position among the parameters, the lifetimes of `Self` not counted; and it is that lifetime *)
+Theorem C04_elision_source_is_rusts_rule : forall g ps0 s0 ps s1,
+  lower_self (s_n g) (s_self g) = (ps0, s0) -> lower_params s0 (s_params g) = (ps, s1) ->
+  src s1 = match s_self g with
+           | SelfRef _ _ _ => SelfParam (self_borrow ps0)
+           | _ => classify (lowered_positions (s_params g) ps)
+           end.
+Proof. exact elision_source_rule. Qed.
+Print Assumptions C04_elision_source_is_rusts_rule.
+
+Theorem C04_elision_source_exists_iff : forall g,
+  has_source (elision_source g) = match rust_target (s_self g) (s_params g) with TSelf | TPos _ => true | _ => false end.
+Proof. exact source_iff_rust_target. Qed.
+Print Assumptions C04_elision_source_exists_iff.
+
+(* a method written with elided lifetimes in its return type, once accepted, gets exactly the edges Rust's rules
+   require for the same method with the source lifetime written out *)
+Theorem C04_elided_return_edges : forall g h ds m k m' k' r,
+  elision_source g = SelfParam h \/ elision_source g = OneParam h ->
+  lower_sig g = Some (m, k) -> lower_sig (spell_ret (alt_of_lt h) g) = Some (m', k') ->
+  defs_okb ds = true -> validate_defs ds = true -> sig_okb ds m = true -> validate_method ds m = true ->
+  In r (ret_lts m) -> no_borrowed_opt_slice ds m r ->
+  k = k' /\ forall e, In e (edges_for m r) <-> spec_edge ds m' r e.
+Proof. exact elided_return_edges. Qed.
+Print Assumptions C04_elided_return_edges.
+
+(* the two panics of ReturnLifetimeLowerer fire only on signatures rustc refuses itself (E0106) *)
+Theorem C04_lowering_panics_only_without_source : forall g,
+  lower_sig g = None <->
+  (ret_elided (s_ret g) = true /\
+   match rust_target (s_self g) (s_params g) with TNone | TAmbiguous => True | _ => False end).
+Proof. exact lowering_panics_iff. Qed.
+Print Assumptions C04_lowering_panics_only_without_source.
